@@ -87,7 +87,7 @@ def gen_dsu(w: Prng) -> dict:
 
 
 def gen_table(w: Prng) -> dict:
-    style = w.weighted([("grown", 5), ("function", 4), ("reversed_chain", 1)])
+    style = w.weighted([("grown", 5), ("function", 4), ("reversed_chain", 1), ("ring", 2)])
     if style == "grown":
         n0 = w.choice([1, 1, 2, 3, 5])
         init = [-1] + [w.below(i) if w.chance(0.8) else -1 for i in range(1, n0)]
@@ -95,6 +95,13 @@ def gen_table(w: Prng) -> dict:
         # a uniformly drawn function nodes -> {none} + nodes: the statement's own quantifier space
         n0 = w.randint(2, 8)
         init = [w.randint(-1, n0 - 1) for _ in range(n0)]
+    elif style == "ring":
+        # one cycle through all rows (every row's parent is the next / previous / the row k further on), optionally
+        # with a tail hanging on it: connected, cyclic, and the longest possible way for labels to travel
+        n0 = w.randint(3, 14)
+        m = w.choice([n0, n0, max(3, n0 - 2)])  # ring size
+        step = w.choice([1, 1, m - 1, 3 if m % 3 else 1])
+        init = [(i + step) % m for i in range(m)] + [w.below(m + j) for j in range(n0 - m)]
     else:
         # children before parents: the worst case for pointer jumping
         n0 = w.randint(3, 14)
@@ -321,6 +328,13 @@ def run_big(program: dict, world: World, out: dict):
     df = pd.DataFrame({"id": ids, "type": 3, "x": 0.0, "y": 0.0, "z": 0.0, "r": 1.0, "pid": pids})
     if not guarded("is_single_root", lambda: swc_utils.is_single_root(df), 40 * big):
         raise Bad("checker_wrong", "is_single_root", f"is_single_root is False on a tree of {n} nodes")
+    # one ring through all rows, each row's parent the next row: connected, and it contains a cycle
+    rp = np.array([(i + 1) % n for i in range(n)], dtype=np.int32)
+    rdf = pd.DataFrame({"id": ids, "type": 3, "x": 0.0, "y": 0.0, "z": 0.0, "r": 1.0, "pid": rp})
+    if not guarded("is_single_root", lambda: swc_utils.is_single_root(rdf), 400 * big):
+        raise Bad("checker_wrong", "is_single_root", f"is_single_root is False on a ring of {n} rows (all connected)")
+    if not guarded("has_cyclic", lambda: swc_utils.has_cyclic((ids, rp)), 40 * big):
+        raise Bad("checker_wrong", "has_cyclic", f"has_cyclic is False on a ring of {n} rows")
     world.log("big_table", n, program["branch_at"])
     out["states"].append(f"big|{n}|{pat}")
     out["nontrivial"] = True
@@ -454,18 +468,21 @@ def forest_text(f: dict) -> str:
     return "\n".join(lines) + "\n"
 
 
-def forest_frame(f: dict):
+def forest_frame(f: dict, int_xyz: bool = False):
     import pandas as pd
 
     n = len(f["pid"])
     b = f["base"]
     sig = sig_of(f)
+    # int_xyz: coordinates in integer-typed columns (a table built from voxel indices); the generated coordinates are
+    # multiples of 0.25, so four times them is exact
+    cdt, mul = (np.int64, 4) if int_xyz else (np.float64, 1)
     return pd.DataFrame({
         "id": np.array([b + sig[i] for i in range(n)], dtype=np.int64),
         "type": np.array(f["type"], dtype=np.int64),
-        "x": np.array(f["x"], dtype=np.float64),
-        "y": np.array(f["y"], dtype=np.float64),
-        "z": np.array(f["z"], dtype=np.float64),
+        "x": np.array([v * mul for v in f["x"]], dtype=cdt),
+        "y": np.array([v * mul for v in f["y"]], dtype=cdt),
+        "z": np.array([v * mul for v in f["z"]], dtype=cdt),
         "r": np.array(f["r"], dtype=np.float64),
         "pid": np.array([-1 if p == -1 else sig[p] + b for p in f["pid"]], dtype=np.int64),
     })
@@ -553,7 +570,11 @@ def run_roots(program: dict, world: World, out: dict):
         op = f"{api}[fix_roots={fix}]"
         world.take_warnings()
         if api == "table":
-            df = forest_frame(f)
+            int_xyz = bool(rd.get("int_xyz", (n + ri) % 3 == 0))
+            fj = f if not int_xyz else dict(f, x=[v * 4 for v in f["x"]], y=[v * 4 for v in f["y"]], z=[v * 4 for v in f["z"]])
+            if int_xyz:
+                world.probe("c18.integer_typed_coordinates")
+            df = forest_frame(f, int_xyz)
             if ri % 2 == 0:
                 # diagnose first (as read_swc does after a read), then repair, then diagnose the repaired table
                 guarded("is_single_root", lambda: swc_utils.is_single_root(df))
@@ -572,18 +593,18 @@ def run_roots(program: dict, world: World, out: dict):
                 shift, repaired = -sig_of(f)[0], False
             if not df.equals(before):
                 raise Bad("input_modified", op, "the input frame was modified by the copying variant")
-            judge_frame(f, frame_rows(res), op, repaired=repaired, id_shift=shift, relabelled=False)
+            judge_frame(fj, frame_rows(res), op, repaired=repaired, id_shift=shift, relabelled=False)
             again = guarded("is_single_root", lambda: swc_utils.is_single_root(res))
             if bool(again) != (repaired or k == 1):
                 raise Bad("checker_wrong", "is_single_root",
                           f"after {op} on a diagnosed forest of {k} roots: is_single_root(result) = {again}")
             if repaired and ri % 3 == 0:
                 # the in-place flavour on a frame that was diagnosed before
-                df2 = forest_frame(f)
+                df2 = forest_frame(f, int_xyz)
                 guarded("is_single_root", lambda: swc_utils.is_single_root(df2))
                 inplace = swc_utils.mark_roots_as_somas_ if fix == "somas" else swc_utils.link_roots_to_nearest_
                 guarded(op + "_", lambda: inplace(df2))
-                judge_frame(f, frame_rows(df2), op + "_", repaired=True, id_shift=b, relabelled=False)
+                judge_frame(fj, frame_rows(df2), op + "_", repaired=True, id_shift=b, relabelled=False)
                 if not guarded("is_single_root", lambda: swc_utils.is_single_root(df2)):
                     raise Bad("checker_wrong", "is_single_root", f"after {op}_ (in place) on a diagnosed forest: still reported as not single-rooted")
             world.log(ri, op, "ok")
